@@ -218,7 +218,14 @@ def path_map_field(ctx: Ctx) -> str:
     if "path_map_field" not in c:
         fs = [k for k, a in _record_fields(ctx, "dds.structures.EvalContext").items() if "DDSPath" in a and "PyHash" in a]
         if len(fs) > 1:
-            # several path -> signature maps: the path map is the one filled from the collection of the kept paths (all_store_paths)
+            # several path -> signature maps: the path map is the one every evaluation has (a required field, not an Optional one with a default)
+            k_ = ctx.prog.cls("dds.structures.EvalContext")
+            required = [st.target.id for st in k_.node.body if isinstance(st, ast.AnnAssign) and isinstance(st.target, ast.Name) and st.target.id in fs
+                        and st.value is None and not unparse(st.annotation, 200).startswith("Optional")]
+            if len(required) == 1:
+                fs = required
+        if len(fs) > 1:
+            # ... or the one filled from the collection of the kept paths (all_store_paths)
             api = ctx.prog.modules.get("dds._api")
             from ..flow import flow_of
             hit = []
